@@ -42,5 +42,9 @@ try:
         sh("git checkout -- . && git clean -fdq", cwd=wt)
 finally:
     sh(f"git -C /repo worktree remove --force {wt}")
-json.dump(matrix, open(path, "w"), indent=1)
+if os.environ.get("SEED_MATRIX_OUT"):
+    # partial run (several groups in parallel): only this run's rows, merged by the caller
+    json.dump({n: matrix[n] for n in names if n in matrix}, open(os.environ["SEED_MATRIX_OUT"], "w"), indent=1)
+else:
+    json.dump(matrix, open(path, "w"), indent=1)
 print("caught", sum(1 for v in matrix.values() if v.get("caught")), "of", len(matrix))
